@@ -1,6 +1,23 @@
 //! C11 (not built yet)
-use crate::report::{Disagreement, Run};
+use crate::isolate::{CaseOut, Job};
+use crate::report::{Disagreement, Run, Tier};
 use serde_json::Value;
+
+struct Empty;
+impl Job for Empty {
+    fn n_cases(&self) -> usize {
+        0
+    }
+    fn case_json(&self, _: usize) -> Value {
+        Value::Null
+    }
+    fn run_case(&self, _: &Value, _: &mut dyn FnMut(&str)) -> CaseOut {
+        CaseOut::default()
+    }
+}
+pub fn job(_tier: Tier) -> Box<dyn Job> {
+    Box::new(Empty)
+}
 
 pub fn run(run: &mut Run) {
     run.machinery_errors.push("C11: check not built yet".into());
